@@ -483,10 +483,44 @@ func runC06(c *eng.Ctx) {
 					applied = ir.FuncKey(fn)
 				}
 			}
+			if flag == "Readonly" && applied != "" && applied != "server.(*Server).newPartition" {
+				// read-only is independent of pause/resume, and resuming REPLACES the partition object (replacePartition →
+				// newPartition): unless newPartition itself applies the flag, every function that constructs a partition has to
+				appliedIn := func(fn *ssa.Function) bool {
+					tests := eng.BoolEdges(fn, func(v ssa.Value) bool {
+						f, _ := eng.FieldRead(v)
+						return f != nil && f.Name() == flag && f.Pkg() != nil && strings.HasSuffix(f.Pkg().Path(), "server/protocol")
+					}, true)
+					if len(tests) == 0 {
+						return false
+					}
+					q := &eng.PathQuery{Fn: fn, FromEdges: tests, Target: eng.IsCallTo("server/commitlog.CommitLog.SetReadonly", "server.partition.SetReadonly")}
+					return q.Find() != nil
+				}
+				for _, site := range eng.Index(c.P).Sites("server.Server.newPartition") {
+					caller := ir.Outermost(site.Fn)
+					if !appliedIn(caller) {
+						applied = ""
+						c.Violate("persisted flag Partition.Readonly is re-applied on every construction path", c.Pos(site.Instr), ir.FuncKey(caller)+" builds a partition object through newPartition without making its log read-only when the metadata says so (newPartition itself does not either): a read-only partition that is paused and resumed accepts appends on the servers that applied the operations live and refuses them on a server restored from a snapshot")
+					}
+				}
+				if applied == "" {
+					continue
+				}
+			}
 			c.Check(applied != "", "persisted flag Partition."+flag+" is re-applied when a partition is loaded", "-", "tested in "+applied+" and acted upon", "no code that builds a partition from its protobuf looks at Partition."+flag+": after a snapshot restore (or a pause/resume, which replaces the partition object) the metadata says "+strings.ToLower(flag)+" but the partition does not behave so")
 		}
 	}
-	c.Floor(8)
+	// what Snapshot copies is serialised from the live protobuf at that moment: partition.Marshal returns the bytes of a
+	// Partition.Marshal() made in the same call, never bytes kept from an earlier one (a cache keyed by the epoch misses the
+	// pause / read-only flags, which do not move the epoch)
+	if fn := c.Fn("server.(*partition).Marshal"); fn != nil {
+		n, ok := allReturns(fn, nil, func(rv []ssa.Value) bool {
+			return len(rv) == 1 && eng.Call(0, "server/protocol.Partition.Marshal")(rv[0])
+		})
+		c.Check(n >= 1 && ok, "partition.Marshal serialises the current state on every call", c.P.Pos(fn.Pos()), "every return is the result of p.Partition.Marshal() of this call", "partition.Marshal can return bytes that were serialised earlier: a snapshot records flags (paused, read-only) as they were at the previous snapshot")
+	}
+	c.Floor(9)
 
 	// what a restore recomputes from (members, subscriptions) must equal what the incremental updates left in memory
 	c.Rule("R12.5", "K2")
